@@ -15,11 +15,13 @@ type CfgDesc struct {
 	ReopenDump bool   `json:"reopen_dump"`
 	CBSet      int    `json:"cb_set"` // bit set of neutral callbacks installed (C17)
 	Post       string `json:"post"`   // name of the post-step oracle
+	NoHeap     bool   `json:"no_heap_check,omitempty"`
 }
 
 func (d CfgDesc) RunCfg() RunCfg {
 	cfg := RunCfg{FileBacked: d.FileBacked, CmpCB: d.CmpCB, DumpEvery: d.DumpEvery, ReopenDump: d.ReopenDump}
 	cfg.CBSet = d.CBSet
+	cfg.NoHeapCheck = d.NoHeap
 	if f, ok := postOracles[d.Post]; ok {
 		f(&cfg)
 	}
